@@ -252,6 +252,24 @@ def run(chk):
                     # put the attributes back for the next operation
                     root.req("PUT", "/bklock/" + real, query={"tagging": ""}, body=TAG % (b"x" if real == "x" else b"d"))
                     root.req("PUT", "/bklock/" + real, query={"legal-hold": ""}, body=b"<LegalHold><Status>OFF</Status></LegalHold>")
+        # ---- a copy source names one key: "x/" is not the file object "x", "d" is not the directory object "d/" (CopyObject and UploadPartCopy)
+        rcu = root.req("POST", "/bklock/cp-target", query={"uploads": ""}); cuid_ = rcu.xml().findtext("UploadId") if rcu.status == 200 and rcu.xml() is not None else ""
+        for real, other in (("x", "x/"), ("d/", "d")):
+            for opname in ("CopyObject", "UploadPartCopy"):
+                if opname == "CopyObject":
+                    r = root.req("PUT", "/bklock/cp-out", headers={"x-amz-copy-source": "bklock/" + other})
+                    copied = root.req("HEAD", "/bklock/cp-out").status == 200
+                    root.req("DELETE", "/bklock/cp-out")
+                else:
+                    r = root.req("PUT", "/bklock/cp-target", query={"partNumber": "1", "uploadId": cuid_}, headers={"x-amz-copy-source": "bklock/" + other})
+                    copied = r.status == 200 and r.xml() is not None and r.xml().tag != "Error"
+                chk.case(("other-kind-source", real, other, opname), True); chk.traces += 1; chk.count("other-kind-source:%s:%d" % (opname, r.status))
+                row = {"stored_key": real, "request": "%s with the copy source %r" % (opname, other), "status": r.status, "code": r.code, "copied": copied}
+                rows.append(row)
+                if copied or r.status >= 500:
+                    chk.fail("c04:other-kind-key-read:%s-source" % opname, "%s with the copy source %r (which does not exist: the stored key is %r) answered %d %s%s" % (
+                        opname, other, real, r.status, r.code, " and copied that object's data" if copied else ""), row)
+        root.req("DELETE", "/bklock/cp-target", query={"uploadId": cuid_})
         # ---- a delete removes the key it names and nothing else: the explicitly uploaded directory objects above it stay
         for dk in ("photos/", "photos/2024/"):
             root.req("PUT", "/bklock/" + dk, body=b"", headers={"x-amz-meta-kind": "album"})
